@@ -330,6 +330,54 @@ print(json.dumps({"out": [out[i] for i in range(len(docs))], "files": extra, "se
 """
 
 
+def file_history(ctx: fw.Ctx, docs: list[str]):
+    """the same PATH read several times with different contents in between (parse_file / parse with
+    source_path / save): every read depends on the bytes in the file now, not on what the path held before"""
+    from nix_manipulator import parse, parse_file
+
+    def render(fn):
+        try:
+            return fn().rebuild()
+        except RecursionError:
+            return "raises:RecursionError"
+        except Exception as exc:  # noqa: BLE001
+            return exc_class(exc)
+
+    tmp = Path(tempfile.mkdtemp(prefix="c15-files-"))
+    try:
+        p = tmp / "doc.nix"
+        for i, t in enumerate(docs):
+            want = render(lambda t=t: parse(t))
+            p.write_text(t, encoding="utf-8", newline="")
+            got = render(lambda: parse_file(p))
+            got2 = render(lambda t=t: parse(t, source_path=p)) if i % 2 else got
+            ctx.count("file-history-reads")
+            if got != want or got2 != want:
+                ctx.fail({"clause": "file-history", "via": "parse_file" if got != want else "source_path"},
+                         {"doc": t, "previous": docs[i - 1] if i else None, "expected": want, "got": got if got != want else got2},
+                         "reading a path whose content was replaced gives a result that depends on what the path held before")
+                break
+        # edit, save, read again
+        for t in docs[:10]:
+            p.write_text(t, encoding="utf-8", newline="")
+            try:
+                src = parse_file(p)
+                src["zq"] = 1
+                src.save()
+                after = p.read_text(encoding="utf-8")
+                again = parse_file(p).rebuild()
+            except Exception:  # noqa: BLE001
+                continue
+            want = render(lambda after=after: parse(after))
+            ctx.count("file-history-saves")
+            if again != want:
+                ctx.fail({"clause": "file-history", "via": "save"}, {"doc": t, "saved": after, "expected": want, "got": again},
+                         "parse_file after save() does not read what save() wrote")
+                break
+    finally:
+        shutil.rmtree(tmp, ignore_errors=True)
+
+
 def determinism(ctx: fw.Ctx, docs: list[str], n_configs: int):
     rng = ctx.rng
     items = [(rng.choice(["render", "render", "edit", "resolve"]), t) for t in docs]
@@ -346,6 +394,7 @@ def determinism(ctx: fw.Ctx, docs: list[str], n_configs: int):
         if got != serial[i]:
             ctx.fail({"clause": "history", "op": op}, {"doc": t, "op": op, "expected": serial[i], "got": got},
                      f"{op} of a document gives a different result after other documents were processed")
+    file_history(ctx, [t for _op, t in items][:40])
     gc.collect()
     # subprocesses: hash seeds x working directories x order
     tmp = Path(tempfile.mkdtemp(prefix="c15-"))
